@@ -7,6 +7,7 @@ def operators : List (String × String) := [("!=", "NotEqual"), ("%", "Modulo"),
 def intOps : List (String × String) := [("Add", "+"), ("Divide", "/"), ("FloorDivide", "floor(float/float)"), ("GreaterThan", ">"), ("GreaterThanOrEqual", ">="), ("LessThan", "<"), ("LessThanOrEqual", "<="), ("Modulo", "%"), ("Multiply", "*"), ("Subtract", "-")]
 def listAddExpr : String := "slices.Clip(append(l, l2...))"
 def listAddAppendsToReceiver : Bool := true
+def listAddClips : Bool := true
 def freezeWraps : String := "receiver"
 def sortedArg : String := "reslice"
 def reversedArg : String := "reslice"
